@@ -110,6 +110,14 @@ theorem applyOp_frame {st st' : Store} {op : Op} {m : String}
       simp only [hg, optE, bind, Except.bind, pure, Except.pure, Except.ok.injEq] at h
       subst h; exact Store.get_put_ne _ _ _ _ hm
 
+/-- non-vacuity: recycling `y` leaves `x` as it was -/
+example :
+    let st : Store := [("x", ⟨[97, 99], none⟩), ("y", ⟨[103], none⟩)]
+    ∀ st', applyOp st (.recycle "y") = .ok st' → st'.get "x" = st.get "x" ∧ (st'.get "y").map (·.seq) = some [] := by
+  intro st st' h
+  refine ⟨applyOp_frame h (by decide), ?_⟩
+  cases h; decide
+
 /-- no aliasing along a whole history: an object that no operation of the history targets is
 unchanged at the end (modifying or recycling one object never changes another) -/
 theorem no_alias (ops : List Op) (st st' : Store) (m : String)
@@ -230,5 +238,226 @@ example : subsequence [97, 99, 103] 3 5 false = .error .fromOut :=
   subsequence_fromOut _ _ _ (by decide) (by decide) (by decide)
 example : subsequence [97, 99, 103] 1 4 false = .error .toOut :=
   subsequence_toOut _ _ _ (by decide) (by decide) (by decide) (by decide)
+
+/-! ## Reverse complement of a subsequence -/
+
+/-- the reverse complement of a subsequence is the mirrored subsequence of the reverse complement -/
+theorem rc_subseq (s : Bytes) (a b : Nat) (hab : a ≤ b) (hb : b ≤ s.length) :
+    rc ((s.drop a).take (b - a)) = ((rc s).drop (s.length - b)).take (b - a) := by
+  unfold rc
+  rw [List.map_take, List.map_drop, List.reverse_take, List.reverse_drop, List.drop_take]
+  simp only [List.length_drop, List.length_map]
+  congr 1
+  · omega
+  · congr 1; omega
+
+example : rc (([97, 97, 99, 103, 116] : Bytes).drop 1 |>.take 2) = ((rc [97, 97, 99, 103, 116]).drop 2).take 2 :=
+  rc_subseq [97, 97, 99, 103, 116] 1 3 (by decide) (by decide)
+
+/-! ## Circular subsequence -/
+
+/-- a circular subsequence is the matching window of the sequence concatenated with itself
+(`a ≥ b` wraps around the origin; `b = 0` behaves as `b = length`, except on a 1-byte sequence
+where Go's truncated `%` makes `to = 1`, which is the same window) -/
+theorem circ_window (s : Bytes) (a b : Nat) (ha : a < s.length) (hb : b ≤ s.length) :
+    subsequence s a b true =
+      .ok (((s ++ s).drop a).take ((if a < b then b else b + s.length) - a), a) := by
+  rcases Nat.eq_zero_or_pos b with hb0 | hb0
+  · subst hb0
+    by_cases hn : s.length = 1
+    · have ha0 : a = 0 := by omega
+      subst ha0
+      rw [subsequence_circ_core s 0 _ 1 ha (by rw [hn]; decide)]
+      simp only [Nat.lt_irrefl, if_false, Nat.zero_add, Nat.sub_zero, List.drop_zero]
+      rw [if_pos (by decide), List.take_append_of_le_length (by omega), hn]
+    · have h2 : Int.tmod (((0 : Nat) : Int) - 1) (s.length : Int) + 1 = ((0 : Nat) : Int) := by
+        have := tmod_neg_one s.length (by omega)
+        simp only [Int.natCast_zero, Int.zero_sub, this]; rfl
+      rw [subsequence_circ_core s a _ 0 ha h2]
+      simp only [Nat.not_lt_zero, if_false]
+      rw [window_ge s a 0 (by omega)]
+  · have h2 : Int.tmod ((b : Int) - 1) (s.length : Int) + 1 = b := by
+      rw [Int.tmod_eq_of_lt (by omega) (by omega)]; omega
+    rw [subsequence_circ_core s a _ b ha h2]
+    by_cases hab : a < b
+    · simp only [hab, if_true]; rw [window_lt s a b (by omega) hb]
+    · simp only [hab, if_false]; rw [window_ge s a b (by omega)]
+
+example : subsequence [97, 99, 103, 116, 110] 3 2 true = .ok ([116, 110, 97, 99], 3) :=
+  circ_window [97, 99, 103, 116, 110] 3 2 (by decide) (by decide)
+example : subsequence [97, 99, 103, 116, 110] 1 3 true = .ok ([99, 103], 1) :=
+  circ_window [97, 99, 103, 116, 110] 1 3 (by decide) (by decide)
+
+/-! ## The in-place loop computes the specification -/
+
+/-- the two-index in-place loop of `ReverseComplement` computes reverse ∘ map complement, for every
+sequence (any length, odd or even, empty included) -/
+theorem revcompInPlace_eq_rc (s : Bytes) : revcompInPlace s = rc s := by
+  unfold revcompInPlace rc
+  rw [rcLoop_eq_genLoop]
+  exact genLoop_spec nucComplement s (s.length + 1) s.toArray s.length 0 (LoopInv.init _ _) (by omega)
+
+/-- the same loop on qualities is list reversal -/
+theorem reverseInPlace_eq_reverse (q : Bytes) : reverseInPlace q = q.reverse := by
+  unfold reverseInPlace
+  rw [revLoop_eq_genLoop, genLoop_spec id q (q.length + 1) q.toArray q.length 0 (LoopInv.init _ _) (by omega),
+    List.map_id]
+
+/-- reverse-complementing in place twice restores the nucleotides -/
+theorem rc_rc_inplace (s : Bytes) (h : ∀ b ∈ s, b ∈ alphabet) :
+    revcompInPlace (revcompInPlace s) = s := by
+  rw [revcompInPlace_eq_rc, revcompInPlace_eq_rc, rc_rc s h]
+
+/-- … and the qualities -/
+theorem reverse_reverse_inplace (q : Bytes) : reverseInPlace (reverseInPlace q) = q := by
+  rw [reverseInPlace_eq_reverse, reverseInPlace_eq_reverse, List.reverse_reverse]
+
+example : revcompInPlace (revcompInPlace [97, 99, 103, 116, 110, 114, 91]) = [97, 99, 103, 116, 110, 114, 91] :=
+  rc_rc_inplace _ (by decide)
+
+/-- the bound to the alphabet is needed: `x` (120) is not an IUPAC code and is complemented to `n` -/
+example : revcompInPlace (revcompInPlace [120]) ≠ [120] := by decide
+
+/-- reverse complement of a subsequence, stated on the model functions: cutting `[a, b)` and reverse
+complementing gives the same bytes as reverse complementing and cutting the mirrored window -/
+theorem rc_subseq_model (s : Bytes) (a b : Nat) (hab : a < b) (hb : b ≤ s.length) :
+    (subsequence s a b false).map (fun r => revcompInPlace r.1) =
+      (subsequence (revcompInPlace s) (s.length - b : Nat) (s.length - a : Nat) false).map (·.1) := by
+  have hl : (rc s).length = s.length := by simp [rc]
+  rw [subsequence_linear s a b hab hb, revcompInPlace_eq_rc s,
+    subsequence_linear (rc s) (s.length - b) (s.length - a) (by omega) (by rw [hl]; omega)]
+  simp only [Except.map, revcompInPlace_eq_rc]
+  rw [rc_subseq s a b (by omega) hb]
+  have e : s.length - a - (s.length - b) = b - a := by omega
+  rw [e]
+
+example :
+    (subsequence [97, 97, 99, 103, 116] 1 3 false).map (fun r => revcompInPlace r.1) =
+      (subsequence (revcompInPlace [97, 97, 99, 103, 116]) 2 4 false).map (·.1) :=
+  rc_subseq_model [97, 97, 99, 103, 116] 1 3 (by decide) (by decide)
+
+/-! ## Coordinates of position-bearing annotations -/
+
+/-- the annotated base after reverse complement is the complement of the annotated base before
+(positions are 1-based) -/
+theorem revcmpPos_base (s : Bytes) (p : Nat) (h1 : 1 ≤ p) (hn : p ≤ s.length) :
+    (rc s)[(revcmpPos s.length p).toNat - 1]? = (s[p - 1]?).map nucComplement := by
+  have e : (revcmpPos s.length p).toNat - 1 = s.length - p := by unfold revcmpPos; omega
+  unfold rc
+  rw [e, List.getElem?_reverse (by simp; omega), List.getElem?_map, List.length_map]
+  congr 2; omega
+
+theorem revcmpPos_base_inplace (s : Bytes) (p : Nat) (h1 : 1 ≤ p) (hn : p ≤ s.length) :
+    (revcompInPlace s)[(revcmpPos s.length p).toNat - 1]? = (s[p - 1]?).map nucComplement := by
+  rw [revcompInPlace_eq_rc]; exact revcmpPos_base s p h1 hn
+
+/-- … and the transformed position is again a position of the sequence -/
+theorem revcmpPos_range (n p : Int) (h1 : 1 ≤ p) (hn : p ≤ n) :
+    1 ≤ revcmpPos n p ∧ revcmpPos n p ≤ n := by
+  unfold revcmpPos; omega
+
+example : (rc [97, 97, 99, 103, 116])[(revcmpPos 5 3).toNat - 1]? = some 103 :=
+  revcmpPos_base [97, 97, 99, 103, 116] 3 (by decide) (by decide)
+
+/-- length of the window cut by `subsequence s a b _` -/
+def windowLen (n a b : Nat) : Nat := (if a < b then b else b + n) - a
+
+/-- linear and circular subsequences in one statement: the window of `s ++ s` starting at `a` -/
+theorem subsequence_window (s : Bytes) (a b : Nat) (circ : Bool) (ha : a < s.length) (hb : b ≤ s.length)
+    (hc : circ = false → a < b) :
+    subsequence s a b circ = .ok (((s ++ s).drop a).take (windowLen s.length a b), a) := by
+  unfold windowLen
+  cases circ with
+  | true => exact circ_window s a b ha hb
+  | false =>
+    have hab := hc rfl
+    rw [subsequence_linear s a b hab hb, if_pos hab, window_lt s a b (by omega) hb]
+
+/-- coordinates of a position-bearing annotation after `Subsequence`: a kept position designates
+the same base and lies inside the new sequence -/
+theorem subseqPos_spec (s : Bytes) (a b : Nat) (circ : Bool) (ha : a < s.length) (hb : b ≤ s.length)
+    (hc : circ = false → a < b) (sub : Bytes) (shift : Nat)
+    (h : subsequence s a b circ = .ok (sub, shift))
+    (p : Nat) (hp1 : 1 ≤ p) (hpn : p ≤ s.length) (np : Int)
+    (hnp : subseqPos shift s.length sub.length p = some np) :
+    sub[np.toNat - 1]? = s[p - 1]? ∧ 1 ≤ np ∧ np ≤ sub.length := by
+  rw [subsequence_window s a b circ ha hb hc] at h
+  simp only [Except.ok.injEq, Prod.mk.injEq] at h
+  obtain ⟨hsub, hshift⟩ := h
+  subst hshift
+  have hL : windowLen s.length a b ≤ s.length := by unfold windowLen; split <;> omega
+  have hlen : sub.length = windowLen s.length a b := by
+    rw [← hsub]; exact window_length s a _ (by omega)
+  rw [hlen] at hnp ⊢
+  rw [subseqPos_some_iff a s.length _ p np (by omega)] at hnp
+  rw [← hsub]
+  rcases hnp with ⟨h1, h2, h3⟩ | ⟨h1, h2, h3⟩
+  · have e : np.toNat - 1 = p - a - 1 := by omega
+    rw [e, window_getElem? s a _ _ (by omega)]
+    have e2 : a + (p - a - 1) = p - 1 := by omega
+    rw [e2, double_getElem?_left s _ (by omega)]
+    exact ⟨rfl, by omega, by omega⟩
+  · have e : np.toNat - 1 = p + s.length - a - 1 := by omega
+    rw [e, window_getElem? s a _ _ (by omega)]
+    have e2 : a + (p + s.length - a - 1) = s.length + (p - 1) := by omega
+    rw [e2, double_getElem?_right s]
+    exact ⟨rfl, by omega, by omega⟩
+
+/-- a position is dropped exactly when it lies outside the window: outside `(a, b]` for a
+non-wrapping window (linear, or circular with `a < b`), inside `(b, a]` for a wrapping circular
+window (`b ≤ a`) — positions 1-based -/
+theorem subseqPos_none_iff_window (s : Bytes) (a b : Nat) (circ : Bool) (ha : a < s.length)
+    (hb : b ≤ s.length) (hc : circ = false → a < b) (sub : Bytes) (shift : Nat)
+    (h : subsequence s a b circ = .ok (sub, shift))
+    (p : Nat) (hp1 : 1 ≤ p) (hpn : p ≤ s.length) :
+    subseqPos shift s.length sub.length p = none ↔
+      (if a < b then p ≤ a ∨ b < p else b < p ∧ p ≤ a) := by
+  rw [subsequence_window s a b circ ha hb hc] at h
+  simp only [Except.ok.injEq, Prod.mk.injEq] at h
+  obtain ⟨hsub, hshift⟩ := h
+  subst hshift
+  have hlen : sub.length = windowLen s.length a b := by
+    rw [← hsub]; exact window_length s a _ (by unfold windowLen; split <;> omega)
+  rw [hlen, subseqPos_none_iff a s.length _ p (by omega)]
+  unfold windowLen
+  split <;> omega
+
+/-- linear case, stated directly -/
+theorem subseqPos_linear (s : Bytes) (a b : Nat) (hab : a < b) (hb : b ≤ s.length)
+    (p : Nat) (hp1 : 1 ≤ p) (hpn : p ≤ s.length) :
+    subseqPos a s.length (b - a : Nat) p = (if a < p ∧ p ≤ b then some ((p : Int) - a) else none) := by
+  split
+  · rw [subseqPos_some_iff a s.length _ p _ (by omega)]; omega
+  · rw [subseqPos_none_iff a s.length _ p (by omega)]; omega
+
+/-- wrapping circular case, stated directly -/
+theorem subseqPos_wrapped (s : Bytes) (a b : Nat) (_hba : b ≤ a) (ha : a < s.length)
+    (p : Nat) (hp1 : 1 ≤ p) (hpn : p ≤ s.length) :
+    subseqPos a s.length (b + s.length - a : Nat) p =
+      (if a < p then some ((p : Int) - a) else if p ≤ b then some ((p : Int) + s.length - a) else none) := by
+  split
+  · rw [subseqPos_some_iff a s.length _ p _ (by omega)]; omega
+  · split
+    · rw [subseqPos_some_iff a s.length _ p _ (by omega)]; omega
+    · rw [subseqPos_none_iff a s.length _ p (by omega)]; omega
+
+/-- non-vacuity, wrapping window `from = 3, to = 2` of `acgtn` = `tnac`: position 1 (`a`) moves to 3 -/
+example : ([116, 110, 97, 99] : Bytes)[(3 : Int).toNat - 1]? = ([97, 99, 103, 116, 110] : Bytes)[1 - 1]? ∧
+    (1 : Int) ≤ 3 ∧ (3 : Int) ≤ ([116, 110, 97, 99] : Bytes).length :=
+  subseqPos_spec [97, 99, 103, 116, 110] 3 2 true (by decide) (by decide) (by decide)
+    [116, 110, 97, 99] 3 rfl 1 (by decide) (by decide) 3 (by decide)
+
+/-- … and position 3 (`g`), outside the window, is dropped -/
+example : subseqPos 3 5 4 3 = none :=
+  (subseqPos_none_iff_window [97, 99, 103, 116, 110] 3 2 true (by decide) (by decide) (by decide)
+    [116, 110, 97, 99] 3 rfl 3 (by decide) (by decide)).mpr (by decide)
+
+/-- linear window `from = 1, to = 4` of `acgtn` = `cgt`: position 3 (`g`) moves to 2, position 1 is dropped -/
+example : subseqPos 1 5 3 3 = some 2 :=
+  subseqPos_linear [97, 99, 103, 116, 110] 1 4 (by decide) (by decide) 3 (by decide) (by decide)
+example : subseqPos 1 5 3 1 = none :=
+  subseqPos_linear [97, 99, 103, 116, 110] 1 4 (by decide) (by decide) 1 (by decide) (by decide)
+example : subseqPos 3 5 4 2 = some 4 :=
+  subseqPos_wrapped [97, 99, 103, 116, 110] 3 2 (by decide) (by decide) 2 (by decide) (by decide)
 
 end ObiVerif.Props.C07
